@@ -152,37 +152,9 @@ def r2_positions_survive(ctx):
             rebinds = [s for s in all_stmts(rc.node) if isinstance(s, ast.Assign) and any(dotted(t) == dotted(tree_arg) for t in s.targets) and cfg.node_of(s) in cfg.reachable(cfg.node_of(last)) and cfg.node_of(st) in cfg.reachable(cfg.node_of(s))]
             ok_l = not rebinds
         ctx.ob(f"{rc.key}:compile:line-offset", rc.loc(c), f"the tree handed to compile was shifted by `{srcp}.__code__.co_firstlineno - 1`", ok_l, "the rewritten tree is compiled without the original line offset: tracebacks point at wrong line numbers")
-    # each replacement node takes the location of the node it replaces
-    for mname in ("visit_Name", "visit_Call"):
-        m = rw.methods.get(mname)
-        ctx.require(m is not None, f"rewriter lost {mname}")
-        ctx.touch(m)
-        rv = recv_name(m)
-        nodep = [p for p in m.params if p != rv][0]
-        for r in [x for x in ast.walk(m.node) if isinstance(x, ast.Return) and x.value is not None]:
-            # returns inside nested helpers are not replacement results
-            owner_ok = True
-            for inner in [x for x in ast.walk(m.node) if isinstance(x, ast.FunctionDef) and x is not m.node]:
-                if any(y is r for y in ast.walk(inner)):
-                    owner_ok = False
-            if not owner_ok:
-                continue
-            v = r.value
-            kind = None
-            if isinstance(v, ast.Name) and v.id == nodep:
-                kind = "unchanged"
-            elif isinstance(v, ast.Call) and is_self_attr(v.func, "generic_visit", selfname=rv):
-                kind = "generic_visit"
-            elif isinstance(v, ast.Call) and call_name(v) in ("ast.copy_location", "copy_location"):
-                old = next((k.value for k in v.keywords if k.arg == "old_node"), v.args[1] if len(v.args) > 1 else None)
-                kind = "copy_location" if dotted(old) == nodep else None
-            ctx.ob(
-                f"{m.key}:return:{kind or short(v, 30)}",
-                m.loc(r),
-                f"`{short(r, 50)}` returns the node itself, its generic visit, or a new node given the location of `{nodep}`",
-                kind is not None,
-                f"`{short(r, 60)}` returns a new node without the location of the node it replaces: fix_missing_locations then gives it its parent's position and tracebacks through the call point at the wrong line/column",
-            )
+    from .rewriter import law_locations
+
+    law_locations(ctx)
 
 
 # ----------------------------------------------------------------- R3 each argument once, in order
@@ -192,184 +164,15 @@ def _fstring_parts(node):
 
 
 def r3_each_argument_once(ctx):
-    rw = A.rewriter(ctx.repo)
-    vc = rw.methods["visit_Call"]
-    ctx.touch(vc)
-    rv = recv_name(vc)
-    nodep = [p for p in vc.params if p != rv][0]
-    helpers = [x for x in vc.node.body if isinstance(x, ast.FunctionDef)]
-    # the helper that creates the assignment expression
-    helper = None
-    for h in helpers:
-        if any(isinstance(c, ast.Call) and call_name(c) == "ast.NamedExpr" for c in ast.walk(h)):
-            helper = h
-    ctx.require(helper is not None, f"{vc.key}: no helper building an assignment expression (ast.NamedExpr)")
-    hp = [a.arg for a in helper.args.args]
-    ctx.require(len(hp) == 2, f"{vc.key}: the temp helper no longer takes (key, argument)")
-    keyp, argp = hp
-    ne = [c for c in ast.walk(helper) if isinstance(c, ast.Call) and call_name(c) == "ast.NamedExpr"][0]
-    kw = {k.arg: k.value for k in ne.keywords}
-    tgt = kw.get("target")
-    val = kw.get("value")
-    store_tpl = None
-    if isinstance(tgt, ast.Call) and call_name(tgt) == "ast.Name":
-        idv = next((k.value for k in tgt.keywords if k.arg == "id"), tgt.args[0] if tgt.args else None)
-        store_tpl = _fstring_parts(idv)
-        ctxv = next((k.value for k in tgt.keywords if k.arg == "ctx"), None)
-        is_store = ctxv is not None and "Store" in src(ctxv)
-    ok_val = isinstance(val, ast.Call) and is_self_attr(val.func, "visit", selfname=rv) and len(val.args) == 1 and dotted(val.args[0]) == argp
-    ctx.ob(
-        f"{vc.key}:temp:value-is-visited-argument",
-        vc.loc(ne),
-        "each argument expression is stored once into its temporary, after being rewritten itself (nested recurse/call_next calls inside arguments)",
-        ok_val,
-        f"the temporary is assigned `{short(val, 40) if val is not None else '?'}`: nested recurse/call_next calls inside an argument are not rewritten, or the argument is not the helper's own",
-    )
-    ctx.ob(f"{vc.key}:temp:store-name", vc.loc(ne), "the temporary is a Store of a name built from the call-site prefix and the argument's key", store_tpl is not None and is_store and f"§{keyp}§" in store_tpl, "the temporary's name does not depend on the argument's key: two arguments share one temporary")
-    # the prefix of the temporaries is fresh for every rewritten call site
-    pref = None
-    if store_tpl:
-        m0 = re.match(r"§(\w+)§", store_tpl)
-        pref = m0.group(1) if m0 else None
-    pdefs = [s for s in vc.node.body if isinstance(s, ast.Assign) and any(dotted(t) == pref for t in s.targets)] if pref else []
-    fresh = False
-    if len(pdefs) == 1:
-        tpl = str_value(pdefs[0].value) or ""
-        m1 = re.search(r"§next\((\w+)\.(\w+)\)§", tpl)
-        if m1 and m1.group(1) == rv:
-            init = rw.methods.get("__init__")
-            fresh = init is not None and any(
-                isinstance(s, ast.Assign) and any(is_self_attr(t, m1.group(2), selfname=recv_name(init)) for t in s.targets) and isinstance(s.value, ast.Call) and call_name(s.value) in ("count", "itertools.count")
-                for s in ast.walk(init.node)
-            )
-    ctx.ob(
-        f"{vc.key}:temp:fresh-prefix",
-        vc.loc(pdefs[0]) if pdefs else vc.loc(),
-        "the temporaries of each rewritten call site carry a prefix drawn from a per-method counter (no two call sites share temporaries)",
-        fresh,
-        f"`{short(pdefs[0], 60) if pdefs else '?'}`: the temporaries' prefix is not unique per call site: a recurse/call_next call nested in an argument of another one overwrites the outer call's temporaries after its types were taken, and the selected method runs on the inner call's arguments",
-    )
-    # calls of the helper: positionals over enumerate(node.args), keywords over node.keywords
-    calls = [c for c in ast.walk(vc.node) if isinstance(c, ast.Call) and isinstance(c.func, ast.Name) and c.func.id == helper.name]
-    pos_calls, kw_calls = [], []
-    pm = parent_map(vc.node)
-    for c in calls:
-        comp = c
-        while comp in pm and not isinstance(comp, (ast.ListComp, ast.GeneratorExp)):
-            comp = pm[comp]
-        ctx.require(isinstance(comp, (ast.ListComp, ast.GeneratorExp)), f"{vc.loc(c)}: helper call outside a comprehension")
-        g = comp.generators[0]
-        if isinstance(g.iter, ast.Call) and call_name(g.iter) == "enumerate" and dotted(g.iter.args[0]) == f"{nodep}.args":
-            i, a = [dotted(x) for x in g.target.elts]
-            pos_calls.append((c, comp, dotted(c.args[0]) == i and dotted(c.args[1]) == a))
-        elif dotted(g.iter) == f"{nodep}.keywords":
-            k = dotted(g.target)
-            kw_calls.append((c, comp, dotted(c.args[0]) == f"{k}.arg" and dotted(c.args[1]) == f"{k}.value", k))
-        else:
-            pos_calls.append((c, comp, False))
-    ok_pos = len(pos_calls) == 1 and pos_calls[0][2]
-    ok_kw = len(kw_calls) == 1 and kw_calls[0][2]
-    ctx.ob(f"{vc.key}:lookup:positionals-in-order", vc.loc(pos_calls[0][0]) if pos_calls else vc.loc(), "one temporary per positional argument, in source order (enumerate over the call's args)", ok_pos, "positional arguments are not each evaluated once in source order")
-    ctx.ob(f"{vc.key}:lookup:keywords-in-order", vc.loc(kw_calls[0][0]) if kw_calls else vc.loc(), "one temporary per keyword argument, keyed by the keyword's name, in source order", ok_kw, "keyword arguments are not each evaluated once in source order under their own name")
-    # positionals are placed before keywords in the lookup tuple
-    order_ok = False
-    if pos_calls and kw_calls:
-        pst = kst = None
-        for st in vc.node.body:
-            if any(x is pos_calls[0][1] for x in ast.walk(st)):
-                pst = st
-            if any(x is kw_calls[0][1] for x in ast.walk(st)):
-                kst = st
-        if isinstance(pst, ast.Assign) and isinstance(kst, ast.AugAssign) and dotted(pst.targets[0]) == dotted(kst.target) and pst.value is pos_calls[0][1] and pst.lineno < kst.lineno:
-            order_ok = True
-        if isinstance(pst, ast.Assign) and pst is kst and isinstance(pst.value, ast.BinOp):
-            order_ok = any(x is pos_calls[0][1] for x in ast.walk(pst.value.left))
-    ctx.ob(f"{vc.key}:lookup:positionals-before-keywords", vc.loc(), "positional temporaries are evaluated before keyword temporaries (left-to-right evaluation of the original call)", order_ok, "the lookup tuple evaluates keyword arguments before positionals, or reorders the positionals")
-    # the new call loads exactly those temporaries
-    new_calls = [c for c in ast.walk(vc.node) if isinstance(c, ast.Call) and call_name(c) == "ast.Call" and any(k.arg == "keywords" and not (isinstance(k.value, ast.List) and not k.value.elts) for k in c.keywords)]
-    ctx.require(len(new_calls) == 1, f"{vc.key}: expected one construction of the replacement call")
-    nc = {k.arg: k.value for k in new_calls[0].keywords}
-    loads_ok = False
-    comp = [x for x in ast.walk(nc.get("args", ast.Constant(value=None))) if isinstance(x, ast.ListComp)]
-    if len(comp) == 1:
-        g = comp[0].generators[0]
-        e = comp[0].elt
-        if isinstance(g.iter, ast.Call) and call_name(g.iter) == "enumerate" and dotted(g.iter.args[0]) == f"{nodep}.args" and isinstance(e, ast.Call) and call_name(e) == "ast.Name":
-            i = dotted(g.target.elts[0])
-            idv = next((k.value for k in e.keywords if k.arg == "id"), None)
-            load_tpl = _fstring_parts(idv) if idv is not None else None
-            loads_ok = load_tpl is not None and store_tpl is not None and load_tpl.replace(f"§{i}§", "§K§") == store_tpl.replace(f"§{keyp}§", "§K§") and "Load" in src(e)
-    ctx.ob(f"{vc.key}:call:positional-loads", vc.loc(new_calls[0]), "the replacement call passes, in order, a load of each positional temporary", loads_ok, "the replacement call does not load exactly the positional temporaries in order: an argument is evaluated twice, dropped or passed in another position")
-    kloads_ok = False
-    comp = [x for x in ast.walk(nc.get("keywords", ast.Constant(value=None))) if isinstance(x, ast.ListComp)]
-    if len(comp) == 1:
-        g = comp[0].generators[0]
-        e = comp[0].elt
-        if dotted(g.iter) == f"{nodep}.keywords" and isinstance(e, ast.Call) and call_name(e) == "ast.keyword":
-            k = dotted(g.target)
-            ek = {x.arg: x.value for x in e.keywords}
-            namev = ek.get("value")
-            if dotted(ek.get("arg")) == f"{k}.arg" and isinstance(namev, ast.Call) and call_name(namev) == "ast.Name":
-                idv = next((x.value for x in namev.keywords if x.arg == "id"), None)
-                load_tpl = _fstring_parts(idv) if idv is not None else None
-                kloads_ok = load_tpl is not None and store_tpl is not None and load_tpl.replace(f"§{k}.arg§", "§K§") == store_tpl.replace(f"§{keyp}§", "§K§")
-    ctx.ob(f"{vc.key}:call:keyword-loads", vc.loc(new_calls[0]), "the replacement call passes each keyword under its own name as a load of that keyword's temporary", kloads_ok, "the replacement call does not pass each keyword temporary under the original keyword name")
+    from .rewriter import law_each_argument_once
+
+    law_each_argument_once(ctx)
 
 
-# ----------------------------------------------------------------- R4 call shapes
 def r4_call_shapes(ctx):
-    rw = A.rewriter(ctx.repo)
-    vc = rw.methods["visit_Call"]
-    vn = rw.methods.get("visit_Name")
-    ctx.touch(vc, vn)
-    rv = recv_name(vc)
-    nodep = [p for p in vc.params if p != rv][0]
-    cfg = cfg_of(ctx, vc)
-    top_ifs = [st for st in vc.node.body if isinstance(st, ast.If)]
-    helper_line = min([x.lineno for x in vc.node.body if isinstance(x, ast.FunctionDef)] + [x.lineno for x in ast.walk(vc.node) if isinstance(x, ast.Call) and call_name(x) == "ast.NamedExpr"])
+    from .rewriter import law_call_shapes
 
-    def bails(st):
-        return any(isinstance(s, ast.Return) and isinstance(s.value, ast.Call) and is_self_attr(s.value.func, "generic_visit", selfname=rv) for s in st.body)
-
-    starred = dstar = None
-    for st in top_ifs:
-        if st.lineno > helper_line or not bails(st):
-            continue
-        t = src(st.test)
-        if "Starred" in t and f"{nodep}.args" in t:
-            starred = st
-        if ".arg is None" in t and f"{nodep}.keywords" in t or ("arg is None" in t and "keywords" in t):
-            dstar = st
-    ctx.ob(f"{vc.key}:bail-out:starred", vc.loc(starred) if starred else vc.loc(), "a call with *args is left to the generic path (not rewritten with per-argument temporaries)", starred is not None, "a starred positional argument reaches the per-argument rewrite: `recurse(*xs)` is keyed by type(xs) as if it were one argument")
-    ctx.ob(f"{vc.key}:bail-out:double-star", vc.loc(dstar) if dstar else vc.loc(), "a call with **kwargs is left to the generic path", dstar is not None, "a double-starred keyword argument reaches the per-argument rewrite: `recurse(a, **kw)` is looked up under the key (None, dict) and no method matches")
-    # every return of visit_Call returns a transformed node
-    rets = [x for x in ast.walk(vc.node) if isinstance(x, ast.Return)]
-    own = []
-    for r in rets:
-        if not any(any(y is r for y in ast.walk(inner)) for inner in ast.walk(vc.node) if isinstance(inner, ast.FunctionDef) and inner is not vc.node):
-            own.append(r)
-    for r in own:
-        v = r.value
-        good = v is not None and not (isinstance(v, ast.Name) and v.id == nodep)
-        ctx.ob(
-            f"{vc.key}:return-transformed:{short(v, 30) if v is not None else 'None'}",
-            vc.loc(r),
-            "every exit of visit_Call hands back a node whose children were visited",
-            good,
-            f"`{short(r, 40)}` returns the call without visiting its children: recurse / self references inside it (the callee and nested arguments) are left unrewritten",
-        )
-    # the generic path turns a starred call_next into a build error (visit_Name raises on the call_next symbol)
-    raises = vn is not None and any(isinstance(x, ast.Raise) for x in ast.walk(vn.node))
-    bail_mentions_cn = any(any(is_self_attr(x, "call_next_sym", selfname=rv) for x in ast.walk(st.test)) for st in (starred, dstar) if st is not None)
-    special = [st for st in top_ifs if st not in (starred, dstar) and "Starred" in src(st)]
-    accepted = not raises or bail_mentions_cn or bool(special)
-    ctx.ob(
-        f"{vc.key}:starred-call_next-{'accepted' if accepted else 'rejected'}",
-        vc.loc(starred) if starred else vc.loc(),
-        "call_next(*args) / call_next(**kw), valid placements, are accepted",
-        accepted,
-        "the bail-out sends a starred call_next to the generic path, where visit_Name rejects the bare call_next symbol: a syntactically valid call_next(*args) makes the build fail with UsageError",
-    )
+    law_call_shapes(ctx)
 
 
 # ----------------------------------------------------------------- R5 walrus placement
